@@ -193,3 +193,29 @@ Exec.method_handlers[("HandleCache", "clear")] = lambda ex, v, node, st, rn: ex.
 # the handle cache of TinyFlux is abstract: membership is unconstrained, deletion keeps it abstract
 Exec.contains_handlers["HandleCache"] = lambda ex, cont, x, node, st: z3.Const(fresh_name("in_handle_cache"), z3.BoolSort())
 Exec.delitem_handlers["HandleCache"] = lambda ex, t, base, st: ex.assign_to(t.value, Val(Cache, z3.Const(fresh_name("handle_cache"), sort_of(Cache))), st)
+
+# ---- mutable points (insert path): records bound from AnyObj elements
+
+
+def _iter_anyobj_list(ex, v, s, st):
+    def elem(j):
+        o = l_at(v.t, j)
+        return Val(MP, dict(_time=Val(ODt, mp_time(o)), _measurement=Val(TStr, mp_meas(o)), _tags=Val(TagsD, mp_tags(o)),
+                            _fields=Val(FldsD, mp_fields(o)), _is_point=Val(TBool, is_point(o))))
+    return l_len(v.t), v, elem, {}
+
+
+Exec.iter_handlers[LAny.key] = _iter_anyobj_list
+S.CLASSES["MPoint"]["isinstance"] = lambda ex, v, names: v.t["_is_point"].t if "Point" in names else z3.BoolVal(False)
+S.CLASSES["MPoint"]["as_value"] = lambda ex, v, node: Val(Pt, pt_of(v))
+Exec.global_calls["datetime.datetime.now"] = lambda ex, node, st: Val(Dt, now_utc(z3.IntVal(0)))
+Exec.truthy_handlers["Tz"] = lambda ex, v: z3.BoolVal(True)
+
+
+def _dt_cmp(ex, op, a, b, node, st):
+    x, y = dt_ts(a.t), dt_ts(b.t)
+    return {_ast.Lt: x < y, _ast.LtE: x <= y, _ast.Gt: x > y, _ast.GtE: x >= y}[type(op)]
+
+
+Exec.cmp_handlers[("Dt", "Dt")] = _dt_cmp
+Exec.isinstance_handlers["Dt"] = lambda ex, v, names, node, st: z3.BoolVal("datetime" in names)
